@@ -160,7 +160,7 @@ After(c, evs) == IF KnownEvs(evs) THEN Replay(caches[c].it, evs).it ELSE caches[
 (* ------------------------------------------------------------------ actions *)
 Skip == UNCHANGED <<buf, caches, stages, pubs, fsubs, ctls, mons, pend, net>>
 
-NetInit == [lists |-> <<>>, consumed |-> 0, wat |-> <<>>, sess |-> <<>>, expectStop |-> FALSE, failDelivered |-> FALSE, firstFailed |-> FALSE, period |-> 0, tDelivered |-> -1, variant |-> ""]
+NetInit == [lists |-> <<>>, consumed |-> 0, wat |-> <<>>, sess |-> <<>>, expectStop |-> FALSE, failDelivered |-> FALSE, firstFailed |-> FALSE, period |-> 0, tDelivered |-> -1, tConsumed |-> -1, variant |-> ""]
 
 EvBegin == /\ buf' = R.buf
            /\ caches' = <<>> /\ stages' = <<>> /\ pubs' = <<>> /\ fsubs' = <<>> /\ ctls' = <<>> /\ mons' = <<>>
@@ -417,6 +417,8 @@ EvQuiesce ==
       stuck == {s \in DOMAIN stages : ~stages[s].stopping /\ BoxR(s) # <<>> /\ ConsumerOf(s) \in {"lib", "healthy", "slow"}}
       \* everything below a closed node is shutting down
       alive == {s \in DOMAIN stages : ~stages[s].stopping /\ \E t \in pend.closedTops : UnderTop(s, t)}
+      \* a monitor whose subscription is ready and running has been initialised (even with an empty listing)
+      uninit == {m \in DOMAIN mons : ~mons[m].inited /\ IsStage(mons[m].sub) /\ ~stages[mons[m].sub].stopping /\ IsReady(mons[m].sub)}
       wstuck == {w \in DOMAIN net.wat : BoxOf(net.wat[w]) # <<>> /\ ~pend.closedAll}
                   \cup {sn \in DOMAIN net.sess : net.sess[sn].alive /\ BoxOf(net.sess[sn]) # <<>> /\ ~pend.closedAll
                                                   /\ \E w \in DOMAIN net.wat : net.wat[w].sess = sn} IN
@@ -424,6 +426,7 @@ EvQuiesce ==
             ELSE IF behind # {} THEN "lost-at-quiescence"
             ELSE IF pending # {} THEN "events-not-emitted"
             ELSE IF stuck # {} \/ wstuck # {} THEN "stuck-at-quiescence"
+            ELSE IF uninit # {} THEN "monitor-not-initialized"
             ELSE IF alive # {} THEN "cascade-incomplete" ELSE "",
             [behind |-> [s \in behind |-> stages[s].inq], pending |-> pending, stuck |-> stuck \cup wstuck, alive_below_closed |-> alive])
   /\ UNCHANGED <<buf, caches, stages, pubs, fsubs, ctls, mons, pend, net>>
@@ -493,16 +496,18 @@ EvSrvListRet ==
 \* one list at a time, and not before about one period after the previous result was taken
 EvSrvListCall ==
   /\ Report(First(<<IF R.inflight > 1 THEN "lists-overlap" ELSE "",
-                    IF R.n > 0 /\ net.tDelivered >= 0 /\ net.period > 0 /\ (R.t - net.tDelivered) * 10 < net.period * 9 THEN "list-too-early" ELSE "">>),
+                    IF R.n > 0 /\ net.tDelivered >= 0 /\ net.period > 0 /\ (R.t - net.tDelivered) * 10 < net.period * 9 THEN "list-too-early" ELSE "",
+                    \* the same from the consumer's side (its line comes a little after the hand-over, hence the wider margin)
+                    IF R.n > 0 /\ net.tConsumed >= 0 /\ net.period > 0 /\ (R.t - net.tConsumed) * 10 < net.period * 6 THEN "list-before-consumed-plus-period" ELSE "">>),
             [n |-> R.n, inflight |-> R.inflight, since_result_taken_us |-> R.t - net.tDelivered, period_us |-> net.period])
-  /\ net' = [net EXCEPT !.tDelivered = -1]
+  /\ net' = [net EXCEPT !.tDelivered = -1, !.tConsumed = -1]
   /\ UNCHANGED <<buf, caches, stages, pubs, fsubs, ctls, mons, pend>>
 
 EvListerDelivered == /\ net' = [net EXCEPT !.tDelivered = R.t]
                      /\ UNCHANGED <<buf, caches, stages, pubs, fsubs, ctls, mons, pend>>
 
 \* ctl.list(type, err): the controller took a list result
-EvCtlList == /\ net' = [net EXCEPT !.failDelivered = @ \/ (X(2) # "") \/ (X(1) \notin {"*v1.PodList", "*v1.List"})]
+EvCtlList == /\ net' = [net EXCEPT !.failDelivered = @ \/ (X(2) # "") \/ (X(1) \notin {"*v1.PodList", "*v1.List"}), !.tConsumed = R.t]
              /\ UNCHANGED <<buf, caches, stages, pubs, fsubs, ctls, mons, pend>>
 
 EvWatcherNew == /\ net' = [net EXCEPT !.wat = (A :> (NewBox @@ [ver |-> "", sess |-> ""])) @@ @]
